@@ -270,8 +270,9 @@ def run_shard(ctx):
             os.makedirs(os.path.join(d, "tmp"))
             start_at = time.monotonic() + 1.2
             ps = []
+            plj = [rng.choice([0.05, 0.15, 0.3]), rng.choice([0.0005, 0.002, 0.005])] if rng.random() < 0.5 else None
             for i in range(n):
-                spec = {"root": d, "writer": i, "seed": rng.getrandbits(32), "jitter_ms": 2.0, "start_at": start_at,
+                spec = {"root": d, "writer": i, "seed": rng.getrandbits(32), "jitter_ms": 2.0, "start_at": start_at, "line_jitter": plj,
                         "ws": os.path.join(d, f"ws{i}"), "out": os.path.join(d, f"out{i}.json")}
                 sp = os.path.join(d, f"spec{i}.json")
                 with open(sp, "w", encoding="utf-8") as f:
@@ -290,6 +291,7 @@ def run_shard(ctx):
                     with open(os.path.join(d, f"out{i}.json"), encoding="utf-8") as f:
                         r = json.load(f)
                     events.extend(tuple(e) for e in r.pop("events"))
+                    res.count("line_jitter_yields", r.pop("line_jitter_yields", 0))
                     results.append(r)
                 except FileNotFoundError:
                     results.append({"error": f"process exited {p.returncode} without a result", "failed": None, "oid": None})
